@@ -22,9 +22,17 @@
 
 #include "galois/config.h"
 
+#ifdef GALOIS_VERIF
+// verification hook: makes spin-waits visible to a controlled scheduler
+extern "C" void galois_verif_pause(void);
+#endif
+
 namespace galois::substrate {
 
 inline static void asmPause() {
+#ifdef GALOIS_VERIF
+  galois_verif_pause();
+#endif
 #if defined(__i386__) || defined(__amd64__)
   //  __builtin_ia32_pause();
   asm volatile("pause");
